@@ -405,10 +405,8 @@ def run(ctx: Ctx) -> int:
 		violations.append(Violation(f'query:{k}', smallest['clause'], f'{smallest["detail"]} ({len(fs)} edges)', {'tree': smallest['tree'], 'history': smallest['history']}))
 
 	# real trees
-	modules = ['example.json', 'rogw.tranp.compatible.libralies.classes'] if quick else [
-		'example.json', 'example.FW.string', 'rogw.tranp.compatible.libralies.classes', 'rogw.tranp.compatible.libralies.type',
-		'tests.unit.rogw.tranp.implements.cpp.transpiler.fixtures.fixture_py2cpp', 'tests.unit.rogw.tranp.semantics.fixtures.fixture_reflections',
-		'tests.unit.rogw.tranp.syntax.node.fixtures.fixture_definition', 'rogw.tranp.errors', 'rogw.tranp.lang.di']
+	from harness import real_modules
+	modules = real_modules.QUICK if quick else real_modules.LOAD_OK
 	with ProcessPoolExecutor(max_workers=min(nproc, len(modules))) as ex:
 		real = list(ex.map(_real_module_case, [(m, ctx.seed + i) for i, m in enumerate(modules)]))
 	real_entries = 0
